@@ -47,6 +47,9 @@ CHECKS = {
             H("c04.VH_dns_tcp", {"L": 16}, {"L": 20}, opts=C04_OPTS, covers=["match returned"], validate=False),
             H("c04.VH_dns_udp", {"L": 16}, {"L": 20}, opts=C04_OPTS, covers=["match returned"], validate=False),
             H("c04.VH_dns_rules", {"L": 14, "NQ": 1}, {"L": 14, "NQ": 2}, opts=C04_OPTS, covers=["match returned"], validate=False),
+            H("c04.VH_dns_rules_both", {"L": 14, "NQ": 1}, {"L": 14, "NQ": 2}, opts=C04_OPTS, covers=["match returned"], validate=False),
+            # handlers that parse remote input before any matcher-approved route: the PROXY protocol handler on its three header kinds
+            H("c01.VH_step_proxyproto", {"params": {"READS": 1, "OFFSET0": 1, "MAXB": 200, "MAXD": 100, "ROUNDS": 2}}, {"params": {"READS": 1, "OFFSET0": 1, "MAXB": 5000, "MAXD": 1000, "ROUNDS": 2}, "timeout_ms": 60000}, covers=["recorder ran"], validate=False),
             H("c04.VH_http_ishttp", {"L": 24}, {"L": 64}, opts=C04_OPTS, covers=["match returned"]),
             H("c04.VH_http_match", {"L": 24}, {"L": 64}, opts=C04_OPTS, covers=["match returned"]),
             # the matching buffer itself must stay bounded whatever a matcher keeps asking for (shared with C05)
@@ -290,6 +293,7 @@ CHECKS["C11"] = {
         H("c11.VH_active", {}, {}, covers=["checked"], **_envonly),
         H("c11.VH_failwindow", {}, {}, covers=["queried", "out of rotation"], **_envonly),
         H("c11.VH_retry", {}, {}, covers=["gave up", "connected after retries"], **_envonly),
+        H("c11.VH_retry_multi", {}, {}, covers=["proxied after abandoned attempts", "attempts were abandoned"], **_envonly),
     ],
     "level_text": "bounded model checking of the real proxy Handler.Handle / dialPeers / countFailure / tryAgain / doActiveHealthCheck in the engine's goroutine mode on the virtual clock, net.Dial being an environment stub with scripted outcomes: max_connections (a probe selection made while the first connection is being proxied must be refused, and the count returns to zero), active checks (peer down iff it refuses), passive failure window (out of rotation exactly while failures of the last fail_duration >= max_fails, for 1-3 failures at instants from a grid, count never negative and back to zero), retries (every try_interval, not after try_duration, last dial error returned, one attempt with try_duration 0)",
     "level_note": "one upstream with one peer; failure instants and query instants from a 3-7-11-second grid around fail_duration = 10 s; try_duration in {0, 1 s, 2.5 s}, try_interval 500 ms; cooperative goroutine schedule (goroutines ready to run do so before virtual time passes); not natively replayable (dial stub, virtual clock): counterexamples are reported from the solver alone",
@@ -299,8 +303,9 @@ CHECKS["C11"] = {
 }
 CHECKS["C03"] = {
     "harnesses": [
-        H("c11.VH_relay", {"PEERS": 1, "BL": 3, "DL": 3, "UPL": 3}, {"PEERS": 1, "BL": 4, "DL": 4, "UPL": 4}, variant="one-peer", covers=["relayed"], weight=2, **_envonly),
+        H("c11.VH_relay", {"PEERS": 1, "BL": 3, "DL": 3, "UPL": 3, "EOFDATA": 1}, {"PEERS": 1, "BL": 4, "DL": 4, "UPL": 4, "EOFDATA": 1}, variant="one-peer", covers=["relayed"], weight=2, **_envonly),
         H("c11.VH_relay", {"PEERS": 2, "BL": 2, "DL": 2, "UPL": 2}, {"PEERS": 2, "BL": 3, "DL": 3, "UPL": 3}, variant="two-peers", covers=["relayed"], weight=5, **_envonly),
+        H("c11.VH_retry_multi", {}, {}, covers=["proxied after abandoned attempts", "attempts were abandoned"], **_envonly),
         H("c11.VH_relay_wrapped", {"params": {"DL": 2, "UPL": 2}}, {"params": {"DL": 3, "UPL": 3}}, covers=["relayed behind a wrapping handler"], weight=1, **_envonly),
         # the relay starts where matching left the connection: freeze/unfreeze restore the read position from any state
         H("c01.VH_match_step", {}, {}, covers=["matcher read bytes"]),
